@@ -173,6 +173,7 @@ type agg struct {
 	samples    []*Outcome
 	hashByIdx  map[int64]uint64
 	notes      map[string]int64
+	stuck      int64 // runs with kernel verdict deadlock / no-progress and no violation raised
 }
 
 func newAgg() *agg {
@@ -198,6 +199,9 @@ func (a *agg) add(o *Outcome) {
 	}
 	a.verdicts[o.Verdict]++
 	a.kernel[o.Kernel]++
+	if (o.Kernel == "deadlock" || o.Kernel == "no-progress") && o.Verdict != "violation" {
+		a.stuck++
+	}
 	a.families[o.Family]++
 	for k, v := range o.Probes {
 		a.probes[k] += int64(v)
@@ -526,10 +530,18 @@ func main() {
 			infra("replay: %v", err)
 		}
 		var rf struct {
-			Signature string `json:"signature"`
+			Signature  string `json:"signature"`
+			Replayable *bool  `json:"replayable"`
+			RaceReport string `json:"race_report"`
 		}
 		b, _ := os.ReadFile(*replay)
 		json.Unmarshal(b, &rf)
+		if rf.Replayable != nil && !*rf.Replayable && !hasSig(o, rf.Signature) {
+			fmt.Printf("recorded race-detector report (this run index did not repeat it in a fresh process; the detector's verdict depends on the history of the worker process):\n%s\n", rf.RaceReport)
+			fmt.Printf("VIOLATION property=%s replay=%s\n", prop, *replay)
+			cleanup()
+			os.Exit(1)
+		}
 		for _, h := range o.History {
 			fmt.Println("  " + h)
 		}
@@ -665,6 +677,24 @@ func main() {
 				}
 			}
 		}
+		if (err != nil || !hasSig(ro, sig)) && tc.race && o.Kernel == "race" {
+			// A report of the Go race detector that a fresh process does not repeat. The detector's
+			// verdict depends on its shadow state (four cells per word, evicted at random, and the
+			// history of the whole worker process), so unlike every other oracle here it is not a
+			// function of the seed alone. Its reports have no false positives as long as the shims
+			// model happens-before correctly (0 reports on the unchanged tree in every sweep), so
+			// the report itself is kept as the evidence and the violation is raised; the file says
+			// that it is a recording, not a replayable execution.
+			rf["index"] = o.Index
+			rf["replayable"] = false
+			rf["race_report"] = detail
+			rf["note"] = "race-detector report recorded in the main run; not reproduced by a fresh-process replay of this run index or its neighbours (DESIGN 7.8)"
+			b2, _ := json.MarshalIndent(rf, "", " ")
+			os.WriteFile(path, b2, 0o644)
+			fmt.Printf("violation: %s\n  %s\n  runs with this signature: %d (recorded report; fresh-process replay did not repeat it)\n", sig, firstLines(detail, 12), a.sigs[sig])
+			violLines = append(violLines, fmt.Sprintf("VIOLATION property=%s replay=%s", prop, path))
+			continue
+		}
 		if err != nil || !hasSig(ro, sig) {
 			unconfirmed++
 			fmt.Fprintf(os.Stderr, "vcheck: violation %s (seed %d) did not reproduce on replay: %v\n", sig, o.Seed, err)
@@ -694,6 +724,10 @@ func main() {
 
 	fmt.Printf("vcheck %s tier=%s seed=%d: %d runs (%d evaluations) in %.1fs (+%.1fs build), %d distinct non-trivial interleavings, verdicts=%v kernel=%v\n",
 		prop, tier, seed, a.runs, a.evals, exploreS, buildS, len(a.ntHashes), a.verdicts, a.kernel)
+	if stuck := a.stuck; stuck > 0 && len(violLines) == 0 {
+		cleanup()
+		infra("%d run(s) ended with a call that never returned (kernel verdict deadlock / no-progress) without this property's oracle raising a violation: not a verdict on %s, but never silently 'held' either (run C10 / C20 on this tree)", stuck, prop)
+	}
 	if unconfirmed > 0 && len(violLines) == 0 {
 		cleanup()
 		infra("%d violation(s) did not reproduce on replay (determinism problem)", unconfirmed)
@@ -714,4 +748,12 @@ func sanitize(s string) string {
 		s = s[:80]
 	}
 	return s
+}
+
+func firstLines(s string, n int) string {
+	l := strings.Split(s, "\n")
+	if len(l) > n {
+		l = l[:n]
+	}
+	return strings.Join(l, "\n  ")
 }
